@@ -127,6 +127,9 @@ def outputs_variant(v, ec, fam):
                 {"output_type": "display_data", "metadata": {},
                  "data": {"image/png": B64_MULTILINE, "text/plain": "<Figure size 640x480 with 1 Axes>"}},
                 {"output_type": "stream", "name": "stdout", "text": "result: %d\nline 2 of output\nand a third line\n" % (40 + fam)}]
+    if v == 7:      # an empty mime bundle is valid too
+        return [{"output_type": "display_data", "metadata": {}, "data": {}},
+                {"output_type": "stream", "name": "stdout", "text": "after the empty bundle %d\n" % fam}]
     raise ValueError(v)
 
 
@@ -201,7 +204,7 @@ def random_abstract(r, ncells=None, minor=None):
     for i in range(n):
         kind = r.choice(["code", "code", "markdown", "raw"])
         cells.append({"cid": i + 1, "fam": r.choice([1, 2, 3, 4, 5, 6, 11, 12, 13, 14, 15]), "kind": kind,
-                      "src": r.choice([0, 0, 1, 2]), "outs": r.randint(0, 6) if kind == "code" else 0,
+                      "src": r.choice([0, 0, 1, 2]), "outs": r.randint(0, 7) if kind == "code" else 0,
                       "md": r.randint(0, 4), "ec": r.randint(0, 2) if kind == "code" else 0,
                       "att": r.randint(0, 3) if kind == "markdown" else 0})
     return {"minor": r.choice([0, 1, 2, 4, 5, 5]) if minor is None else minor, "nbmd": r.randint(0, 2), "cells": cells}
@@ -244,7 +247,7 @@ def random_edit(r, nb, newfams=(7, 8, 21, 22)):
         cands = [i for i in range(n) if cells[i]["kind"] == "code"]
         if cands:
             i = r.choice(cands)
-            cells[i]["outs"] = r.choice([v for v in range(7) if v != cells[i]["outs"]])
+            cells[i]["outs"] = r.choice([v for v in range(8) if v != cells[i]["outs"]])
             label = ("EditOutputs", i, cells[i]["outs"])
     elif k < 0.80:
         i = r.randrange(n)
@@ -374,3 +377,87 @@ def perturb(r, nb, n=2):
         c[k] = _mutate_leaf(r, p, c[k])
         labels.append("/".join(str(x) for x in p))
     return nb, labels
+
+
+# ---------------------------------------------------------------------------
+# concurrent edits INSIDE the outputs of one cell (finer than the output-list variants)
+# ---------------------------------------------------------------------------
+def _output_fields(o):
+    """editable (path, kind) leaves of one output"""
+    f = []
+    if o["output_type"] == "stream":
+        f.append((("text",), "text"))
+    elif o["output_type"] == "error":
+        f.append((("evalue",), "text"))
+        f.append((("traceback", 0), "text"))
+    else:
+        for mime in sorted(o.get("data", {})):
+            if isinstance(o["data"][mime], str):
+                f.append((("data", mime), "text"))
+        f.append((("metadata", "added_key"), "new"))
+    return f
+
+
+def _set(o, path, value):
+    x = o
+    for k in path[:-1]:
+        x = x[k]
+    x[path[-1]] = value
+
+
+def _get(o, path):
+    x = o
+    for k in path:
+        if isinstance(x, dict) and k not in x:
+            return None
+        x = x[k]
+    return x
+
+
+def output_scenarios(r, n):
+    """[(base, local, remote, label)]: both sides edit different fields of one output (no conflict there) and the
+    same field of another output differently (conflict), plus one-sided variations."""
+    out = []
+    tries = 0
+    while len(out) < n and tries < n * 20:
+        tries += 1
+        minor = r.choice([4, 5])
+        outs = r.choice([3, 4, 6, 7])
+        ab = {"minor": minor, "nbmd": 0, "cells": [
+            {"cid": 1, "fam": r.choice([1, 3, 7]), "kind": "code", "src": 0, "outs": outs, "md": 0, "ec": 1, "att": 0},
+            {"cid": 2, "fam": 2, "kind": "markdown", "src": 0, "outs": 0, "md": 0, "ec": 0, "att": 0}]}
+        if r.random() < 0.5:
+            ab["cells"].reverse()
+        base = concrete(ab)
+        ci = [i for i, c in enumerate(base.cells) if c.cell_type == "code"][0]
+        nouts = len(base.cells[ci].outputs)
+        if nouts < 2:
+            continue
+        local, remote = copy.deepcopy(base), copy.deepcopy(base)
+        i, j = r.sample(range(nouts), 2)
+        label = []
+        fi = _output_fields(base.cells[ci].outputs[i])
+        fj = _output_fields(base.cells[ci].outputs[j])
+        if len(fi) >= 2 and r.random() < 0.8:
+            (pa, ka), (pb, kb) = r.sample(fi, 2)
+            for side, (p, k), tag in ((local, (pa, ka), "L"), (remote, (pb, kb), "R")):
+                cur = _get(side.cells[ci].outputs[i], p)
+                _set(side.cells[ci].outputs[i], p, (cur or "") + " %s-edit" % tag if k == "text" else {"by": tag})
+            label.append(("independent", i, pa, pb))
+        if fj and r.random() < 0.8:
+            p, k = r.choice(fj)
+            for side, tag in ((local, "L"), (remote, "R")):
+                cur = _get(side.cells[ci].outputs[j], p)
+                _set(side.cells[ci].outputs[j], p, (cur or "") + " %s-conflict" % tag if k == "text" else {"by": tag})
+            label.append(("conflict", j, p))
+        if r.random() < 0.3:
+            local.cells[ci].outputs.append(nbformat.v4.new_output("stream", name="stdout", text="local appended\n"))
+            label.append(("local-append",))
+        if r.random() < 0.3:
+            remote.cells[ci].outputs.insert(0, nbformat.v4.new_output("stream", name="stderr", text="remote prepended\n"))
+            label.append(("remote-prepend",))
+        if not label:
+            continue
+        if all(is_valid(x) for x in (base, local, remote)):
+            out.append((base, local, remote, label))
+    return out
